@@ -20,6 +20,9 @@ type vxRepClient struct {
 	ReplicaClient
 	files   []*ltx.FileInfo
 	deletes int // DeleteLTXFiles calls
+	// onList, when set, runs once inside the next listing call: what another
+	// goroutine does while that request is in flight
+	onList func()
 }
 
 func (c *vxRepClient) Type() string { return "vx" }
@@ -34,6 +37,11 @@ func (c *vxRepClient) LTXFiles(ctx context.Context, level int, seek ltx.TXID, us
 		if f.Level == level && f.MinTXID >= seek {
 			a = append(a, f)
 		}
+	}
+	// the reply is on its way back when the other goroutine acts
+	if h := c.onList; h != nil {
+		c.onList = nil
+		h()
 	}
 	return ltx.NewFileInfoSliceIterator(a), nil
 }
